@@ -155,6 +155,17 @@ pub fn rec_menu(names: &[Name], level: usize) -> Vec<Rec> {
             r.class = 254;
             v.push(r);
         }
+        if level >= 1 && i == 0 {
+            // IPv4-mapped, IPv4-compatible and documentation IPv6 addresses
+            let mut mapped = [0u8; 16];
+            mapped[10] = 0xff;
+            mapped[11] = 0xff;
+            mapped[12..].copy_from_slice(&[192, 0, 2, 1]);
+            v.push(aaaa_rec(o, 5, mapped));
+            let mut compat = [0u8; 16];
+            compat[12..].copy_from_slice(&[192, 0, 2, 2]);
+            v.push(aaaa_rec(o, 5, compat));
+        }
         if level >= 2 {
             let mut ip = [0u8; 16];
             ip[15] = i as u8;
@@ -282,6 +293,22 @@ pub fn accepted_low_level(level: usize, mut f: impl FnMut(u64, &[u8])) -> u64 {
     for p in into_header_packets() {
         f(n, &p);
         n += 1;
+    }
+    // names of 1..127 labels (one byte each) as question, as owner via pointer and inside NS data
+    for labels in (1..=127usize).filter(|l| *l <= 24 || l % 8 == 7) {
+        let mut q = vec![];
+        for i in 0..labels {
+            q.extend_from_slice(&[1, b'a' + (i % 26) as u8]);
+        }
+        q.push(0);
+        let mut m = base_msg(&q, T_A, true);
+        m.an.push(name_rec(&q, T_NS, 1, &q));
+        m.ar.push(a_rec(&q, 1, [1, 2, 3, 4]));
+        for st in [Strategy::Max, Strategy::Plain] {
+            let p = encode(&m, st);
+            f(n, &p);
+            n += 1;
+        }
     }
     for m in all_label_bytes_messages() {
         for st in [Strategy::Plain, Strategy::Max] {
@@ -973,17 +1000,28 @@ pub fn flags_truncation_packets(mut f: impl FnMut(u64, &[u8])) -> u64 {
     m.an.push(name_rec(&long, T_NS, 1, &long));
     m.ns.push(mx_rec(&long, 1, 1, &long));
     seeds.push(encode(&m, Strategy::Max));
-    for s in seeds.iter().filter(|s| s.len() < 300) {
+    // two OPT records with ordinary records between and after them
+    {
+        let mut m = base_msg(&long, T_A, true);
+        m.ar.push(opt_variants()[0].clone());
+        m.ar.push(soa_rec(&long, 1, &long, &long));
+        m.ar.push(opt_variants()[1].clone());
+        m.ar.push(name_rec(&long, T_NS, 1, &long));
+        seeds.push(encode(&m, Strategy::Max));
+    }
+    for s in seeds.iter().filter(|s| s.len() < 400) {
         for bit in 0..=16u32 {
             let mut b = s.clone();
             let w: u16 = if bit == 16 { 0xffff } else { 1 << bit };
             b[2] |= (w >> 8) as u8;
             b[3] |= w as u8;
-            for counts in 0..3 {
+            for counts in 0..5 {
                 let mut c = b.clone();
                 if counts > 0 {
-                    let v: u16 = if counts == 1 { 255 } else { 65535 };
-                    for pos in [6usize, 8, 10] {
+                    let v: u16 = if counts % 2 == 1 { 255 } else { 65535 };
+                    // every count, or the additional count alone
+                    let fields: &[usize] = if counts <= 2 { &[6, 8, 10] } else { &[10] };
+                    for &pos in fields {
                         c[pos] = (v >> 8) as u8;
                         c[pos + 1] = v as u8;
                     }
